@@ -7,7 +7,8 @@
    All statements quantify over every threshold (below and above it) and every operation list:
    any interleaving of expect / processed / already-known notifications and ticks, duplicates and
    compound sequence values included. *)
-From SG Require Import Base.Prelude C20.SeqIdGen C20.SeqId C17.Checkpointer C17.CheckpointerProofs.
+From SG Require Import Base.Prelude C20.SeqIdGen C20.SeqId C20.SeqIdCodec C17.Checkpointer C17.CheckpointerProofs
+  C17.Persist C17.PersistProofs C17.RegressProofs.
 Open Scope N_scope.
 
 (* SAFETY (first sentence of the property), unconditional: whenever a tick returns [s] for persistence,
@@ -125,6 +126,175 @@ Proof.
 Qed.
 Print Assumptions C17_statement_partial.
 
+(* ====================================================================================================
+   PERSISTENCE, RESTART, STATUS (model: Persist.v).  [prun0 thr ops] runs a history of notifications,
+   CheckpointNow calls with either store failing ([PTick ldown rdown]; a crash between the two writes of
+   _setCheckpoints is [PTick false true] followed by [PRestart]), restarts ([PRestart h wdown]: a new
+   Checkpointer with config hash h over the same two documents), deletions and foreign rewrites of either
+   document and status calls, from two missing documents.  Each entry carries the world before and after
+   the call, the value the tick handed to _setCheckpoints ([ps_ret]) and the ghost history: [g_E]/[g_P]
+   = (config hash, sequence) ever announced / ever processed or already known; [g_Ei]/[g_Pi] = the same
+   for the current Checkpointer only; [g_rets] = (hash, value) of every value a tick computed.
+   ==================================================================================================== *)
+
+(* CheckpointNow, exactly: the lists move as in the list calculus; nothing is written when there is nothing to
+   checkpoint; the local document is written first and - whatever rev id is remembered - always when its store
+   is up; the remote one only after it, and when both stores are up unless the remote document vanished under
+   a remembered rev id (the peer's 404 is not recognised by setRetry: that tick gives up, the next one
+   re-creates the document); lastCheckpointSeq and SetCheckpointCount move only when both documents hold the
+   value under the current config hash.  (Fields of [tick_spec]: PersistProofs.v.) *)
+Theorem C17_tick_persist_exact : forall thr ldown rdown w w' r,
+  tick thr ldown rdown w = (w', r) -> tick_spec thr ldown rdown w w' r.
+Proof. exact tick_ok. Qed.
+Print Assumptions C17_tick_persist_exact.
+
+(* LOCAL / REMOTE MISMATCH IS SAFE: for ANY two documents (crash between the writes, failed roll-backs,
+   deletions, foreign rewrites, another configuration's checkpoint) a new Checkpointer never starts above
+   either stored position; when both carry its config hash it starts from the lower of the two; when the
+   roll-back write goes through the two documents then hold the same text and the remembered rev ids are
+   the documents' revs; each document is left alone or becomes a copy of the other *)
+Theorem C17_local_remote_mismatch_is_safe : forall h wdown w,
+  let w' := restart h wdown w in
+  let r := m_last (w_mem w') in
+  sle r (val_of (seq_of (w_loc w))) /\ sle r (val_of (seq_of (w_rem w))) /\
+  (hash_of (w_loc w) = h -> hash_of (w_rem w) = h -> r = lower_of (w_loc w) (w_rem w)) /\
+  (wdown = false -> seq_of (w_loc w') = seq_of (w_rem w') /\
+                    m_lrev (w_mem w') = rev_of (w_loc w') /\ m_rrev (w_mem w') = rev_of (w_rem w')) /\
+  (w_loc w' = w_loc w \/ exists n, w_loc w' = Some (mkDoc n (hash_of (w_rem w)) (seq_of (w_rem w)))) /\
+  (w_rem w' = w_rem w \/ exists n, w_rem w' = Some (mkDoc n (hash_of (w_loc w)) (seq_of (w_loc w)))).
+Proof.
+  intros h wd w. cbv zeta. destruct (restart_ok h wd w) as [Hlast _ _ [cp Hroll] _ _].
+  destruct (rollback_ok _ _ _ _ _ _ _ _ Hroll) as [_ _ _ _ Hl Hr Hag _ _].
+  destruct (resume_text_ok h wd (w_loc w) (w_rem w)) as [H1 [H2 [_ [_ H5]]]]. rewrite Hlast.
+  split; [exact H1|]. split; [exact H2|]. split; [exact H5|]. split; [|split; assumption].
+  intros E. destruct (Hag E) as [A1 [A2 [A3 A4]]]. split; [congruence|split; assumption].
+Qed.
+Print Assumptions C17_local_remote_mismatch_is_safe.
+
+(* CONFIG CHANGE RESETS: a document missing or stamped with another config hash makes the new Checkpointer
+   start from zero and count a miss; conversely a non-zero start means both documents carry its hash.  (The
+   first tick that stores then stamps both documents with the new hash: C17_tick_persist_exact.) *)
+Theorem C17_config_change_resets : forall h wdown w,
+  let m' := w_mem (restart h wdown w) in
+  ((hash_of (w_loc w) <> h \/ hash_of (w_rem w) <> h) ->
+     m_last m' = zero_seq /\ n_miss (m_stats m') = 1 /\ n_hit (m_stats m') = 0) /\
+  (m_last m' <> zero_seq -> hash_of (w_loc w) = h /\ hash_of (w_rem w) = h) /\
+  m_hash m' = h /\ n_hit (m_stats m') + n_miss (m_stats m') = 1 /\ m_st m' = init.
+Proof.
+  intros h wd w. cbv zeta. destruct (restart_ok h wd w) as [Hlast Hh Hl _ _ [Hhit Hmiss]].
+  destruct (resume_text_ok h wd (w_loc w) (w_rem w)) as [_ [_ [H3 [H4 _]]]]. rewrite Hlast.
+  split; [|split; [|split; [exact Hh|split; [|exact Hl]]]].
+  - intros Hne. rewrite (H4 Hne) in *. destruct (Hmiss eq_refl) as [A B]. repeat split; assumption.
+  - intros Hnz. destruct H3 as [E|[A [B _]]]; [rewrite E in Hnz; exfalso; apply Hnz; reflexivity|split; assumption].
+  - destruct (resume_text h wd (w_loc w) (w_rem w)) as [c|].
+    + destruct Hhit as [A B]; [discriminate|]. rewrite A, B. reflexivity.
+    + destruct (Hmiss eq_refl) as [A B]. rewrite A, B. reflexivity.
+Qed.
+Print Assumptions C17_config_change_resets.
+
+(* SAFETY over whole histories, unconditional: whatever failed, crashed, was deleted or restarted, every value a
+   tick hands to _setCheckpoints was announced to the current Checkpointer and handled, and so was every
+   sequence announced to it at or below that value *)
+Theorem C17_persist_tick_safe : forall thr ops sn s,
+  In sn (prun0 thr ops) -> ps_ret sn = Some s ->
+  In s (g_Ei (ps_g sn)) /\ In s (g_Pi (ps_g sn)) /\
+  forall e, In e (g_Ei (ps_g sn)) -> (before e s = true \/ e = s) -> In e (g_Pi (ps_g sn)).
+Proof.
+  intros thr ops sn s Hin Hr.
+  exact (proj1 (proj2 (prun_uinv thr ops winit ghost0 UInv_init sn Hin)) s Hr).
+Qed.
+Print Assumptions C17_persist_tick_safe.
+
+(* and, unconditional: the position a restart resumes from is zero or the stored text (canonical form) of a value
+   some tick computed under the same config hash - never anything else *)
+Theorem C17_resume_is_persisted_checkpoint : forall thr ops sn h wdown,
+  In sn (prun0 thr ops) -> ps_op sn = PRestart h wdown ->
+  m_last (w_mem (ps_w sn)) = zero_seq \/
+  exists s, m_last (w_mem (ps_w sn)) = canon s /\ In (h, s) (g_rets (ps_g sn)).
+Proof.
+  intros thr ops sn h wd Hin Hop.
+  exact (proj2 (proj2 (prun_uinv thr ops winit ghost0 UInv_init sn Hin)) h wd Hop).
+Qed.
+Print Assumptions C17_resume_is_persisted_checkpoint.
+
+(* RESTART NEVER SKIPS: for every history of announcements, completions, ticks, write failures, crashes between
+   the two writes, restarts, config changes, deletions and foreign rewrites in which the peer keeps its side
+   ([peer_ok]: printable tokens, feed order, no gaps - Persist.v), the position every restart resumes from is
+   not after - and, unless it is zero, strictly before - every sequence announced under that config hash and
+   neither processed nor already known: nothing is skipped, at worst re-sent.  Without feed order the statement
+   is false of the unchanged code (C17_Refuted.v). *)
+Theorem C17_restart_never_skips : forall thr ops, peer_ok thr ops ->
+  forall sn h wdown, In sn (prun0 thr ops) -> ps_op sn = PRestart h wdown ->
+  forall e, In (h, e) (g_E (ps_g sn)) -> ~ In (h, e) (g_P (ps_g sn)) ->
+    sle (m_last (w_mem (ps_w sn))) e /\
+    (m_last (w_mem (ps_w sn)) = zero_seq \/ before (m_last (w_mem (ps_w sn))) e = true).
+Proof. exact restart_never_skips. Qed.
+Print Assumptions C17_restart_never_skips.
+
+(* ====================================================================================================
+   THE KNOWN REGRESS, EXACTLY (list calculus, [run0]): a returned checkpoint below an earlier one was itself
+   announced after the earlier one was returned - any other regress is impossible.
+   ==================================================================================================== *)
+Theorem C17_regress_only_by_late_expected : forall thr ops t1 a t2 b t3 s1 s2,
+  run0 thr ops = t1 ++ a :: t2 ++ b :: t3 ->
+  ret (s_out a) = Some s1 -> ret (s_out b) = Some s2 -> before s2 s1 = true ->
+  In s2 (announced_in t2).
+Proof. intros thr ops. exact (regress_only_by_late thr ops init [] []). Qed.
+Print Assumptions C17_regress_only_by_late_expected.
+
+(* the values handed to _setCheckpoints move backwards iff a sequence below an already returned checkpoint is
+   announced after it and later checkpointed itself.  (The mere arrival of such a sequence is not enough: if it
+   and everything up to a higher position are handled by the next tick, that tick moves forwards -
+   C17_Refuted.late_arrival_without_regress.) *)
+Theorem C17_regress_iff_late_expected : forall thr ops,
+  regresses (run0 thr ops) <-> late_checkpointed (run0 thr ops).
+Proof. exact regress_iff_late. Qed.
+Print Assumptions C17_regress_iff_late_expected.
+
+(* and the regress is forced by safety: while such a late sequence is unhandled, the next value returned is
+   below it, hence below the earlier checkpoint *)
+Theorem C17_late_unhandled_forces_regress : forall thr ops t1 a t2 b t3 s1 s2 x,
+  run0 thr ops = t1 ++ a :: t2 ++ b :: t3 ->
+  ret (s_out a) = Some s1 -> ret (s_out b) = Some s2 ->
+  In x (announced_in t2) -> before x s1 = true -> ~ In x (s_P b) ->
+  before s2 x = true /\ before s2 s1 = true.
+Proof. exact late_unhandled_forces_regress. Qed.
+Print Assumptions C17_late_unhandled_forces_regress.
+
+(* ====================================================================================================
+   STATISTICS AND STATUS as functions of the history
+   ==================================================================================================== *)
+(* ExpectedSequenceCount / ProcessedSequenceCount / AlreadyKnownSequenceCount are the sizes of the
+   announcement / completion / already-known calls made since the last restart (SetCheckpointCount and the
+   hit / miss counters: C17_tick_persist_exact, C17_config_change_resets) *)
+Theorem C17_stats_count_history : forall thr ops,
+  let m := w_mem (pexec thr winit ops) in
+  let cur := since_restart [] ops in
+  n_exp (m_stats m) = count_exp cur /\ n_proc (m_stats m) = count_proc cur /\ n_known (m_stats m) = count_known cur.
+Proof. exact stats_count_history. Qed.
+Print Assumptions C17_stats_count_history.
+
+(* the sequence reported by GetStatus (LastSeqPull / LastSeqPush) is lastCheckpointSeq or a position up to which
+   everything announced to the current Checkpointer is handled - the status never runs ahead either *)
+Theorem C17_status_is_safe : forall thr ops sn x,
+  In sn (prun0 thr ops) -> ps_status sn = Some (Some x) ->
+  ps_op sn = PStatus /\ x = safe_processed (w_mem (ps_pre sn)) /\
+  (x = m_last (w_mem (ps_pre sn)) \/
+   (In x (g_Ei (ps_g sn)) /\ In x (g_Pi (ps_g sn)) /\
+    forall e, In e (g_Ei (ps_g sn)) -> (before e x = true \/ e = x) -> In e (g_Pi (ps_g sn)))).
+Proof. exact status_is_safe. Qed.
+Print Assumptions C17_status_is_safe.
+
+(* precisely: it is what the next tick would hand to _setCheckpoints, else the last checkpoint *)
+Theorem C17_status_is_next_checkpoint : forall thr m,
+  safe_processed m =
+  match fst (fst (update_lists thr (expected (m_st m)) (processed (m_st m)))) with
+  | Some s => s
+  | None => m_last m
+  end.
+Proof. exact safe_processed_next. Qed.
+Print Assumptions C17_status_is_next_checkpoint.
+
 (* non-vacuity: an ordered feed with compound tokens (1::3, 2:1), out-of-order completion, a tick that
    returns a checkpoint while a later expected sequence is still unprocessed, above the threshold *)
 Definition c17_example_ops : list op :=
@@ -139,4 +309,29 @@ Proof.
   assert (H : in_order_feed c17_example_ops) by (apply sorted_le_b_ok; vm_compute; reflexivity).
   split; [exact H|]. split; [apply C17_in_order_feed_is_feed_ordered; exact H|].
   split; vm_compute; reflexivity.
+Qed.
+
+(* non-vacuity of the persistence theorems: checkpoint 5 stored on both sides, 8 only locally (the remote write
+   fails = crash between the two writes), restart: resumes from 5 with the local document rolled back, the feed
+   re-sends 8 and announces 9; 9 stays unhandled across the next crash; the peer contract holds throughout *)
+Definition c17_world_example : list pop :=
+  [PRestart 1 false; PL (Expect [mk 0 0 5; mk 0 0 8]); PL (Processed (mk 0 0 5)); PTick false false;
+   PL (Processed (mk 0 0 8)); PTick false true; PRestart 1 false;
+   PL (Expect [mk 0 0 8; mk 0 0 9]); PL (Processed (mk 0 0 8)); PTick false false; PRestart 1 false].
+
+Example C17_world_nonvacuous :
+  peer_ok 100 c17_world_example /\
+  map (fun sn => (seq_of (w_loc (ps_w sn)), seq_of (w_rem (ps_w sn)), m_last (w_mem (ps_w sn)))) (prun0 100 c17_world_example) =
+    [(None, None, mk 0 0 0); (None, None, mk 0 0 0); (None, None, mk 0 0 0);
+     (Some (mk 0 0 5), Some (mk 0 0 5), mk 0 0 5); (Some (mk 0 0 5), Some (mk 0 0 5), mk 0 0 5);
+     (Some (mk 0 0 8), Some (mk 0 0 5), mk 0 0 5);
+     (Some (mk 0 0 5), Some (mk 0 0 5), mk 0 0 5);
+     (Some (mk 0 0 5), Some (mk 0 0 5), mk 0 0 5); (Some (mk 0 0 5), Some (mk 0 0 5), mk 0 0 5);
+     (Some (mk 0 0 8), Some (mk 0 0 8), mk 0 0 8); (Some (mk 0 0 8), Some (mk 0 0 8), mk 0 0 8)] /\
+  (exists sn, last_opt (prun0 100 c17_world_example) = Some sn /\
+              In (1, mk 0 0 9) (g_E (ps_g sn)) /\ ~ In (1, mk 0 0 9) (g_P (ps_g sn))).
+Proof.
+  split; [apply peer_okb_ok; vm_compute; reflexivity|]. split; [vm_compute; reflexivity|].
+  eexists. split; [vm_compute; reflexivity|]. split; [vm_compute; tauto|].
+  vm_compute. intros H. repeat (destruct H as [H|H]; [discriminate H|]). exact H.
 Qed.
